@@ -262,6 +262,32 @@ def gen_names(mods):
     return out
 
 
+def compile_variant(ctx, src_name, dst_name, subst=(), timeout=900, src_dir=None):
+    """Compile coq/Props/<src_name> (after textual substitutions) as build/<pid>/<dst_name>.
+    Returns (ok, output, [theorem names]); nothing is registered in ctx."""
+    txt = open(os.path.join(src_dir or PROPS, src_name)).read()
+    for a, b in subst:
+        txt = txt.replace(a, b)
+    path = os.path.join(ctx.bdir, dst_name)
+    open(path, "w").write(txt)
+    bad = forbidden_scan([path])
+    rc, o, dt = sh(coqc_cmd(ctx.bdir) + [path], timeout)
+    thms = [n for (l, k, n) in theorems_in(path) if k in ("Theorem", "Corollary", "Example")]
+    return (rc == 0 and not bad), o + ("\nFORBIDDEN: " + "; ".join(bad) if bad else ""), thms
+
+
+def register(ctx, fname, thms, ok, out):
+    """Record the theorems of an extra file as obligations."""
+    if ok:
+        ctx.axioms.update(parse_assumptions(out))
+    for n in thms:
+        ctx.obligations.append(dict(name=n, file=fname, kind="Theorem", status="ok" if ok else "unchecked"))
+    if not ok:
+        m = re.search(r'line (\d+), characters', out)
+        ctx.broken.append(f"{fname}: no longer checks (line {m.group(1) if m else '?'}): {out.strip()[-500:]}")
+    ctx.checker_cmds.append(f"coqc ... {fname}")
+
+
 # ---------------------------------------------------------------------------------------
 # tie 3: certified point evaluation
 def frac(x: float):
